@@ -1154,3 +1154,78 @@ func c16ManyStalled(w *W) {
 func init() {
 	register(&Scenario{Name: "many-stalled-handshakes", Prop: "C16", Horizon: time.Hour, Weight: 3, Run: c16ManyStalled})
 }
+
+// c16BadBurst: a burst of peers whose handshakes are malformed (wrong magic,
+// wrong protocol, garbage) and fail at once, then a conforming peer: it is
+// attached within a second of simulated time - failed handshakes cost the
+// others next to nothing, however many there were in a row.
+func c16BadBurst(w *W) {
+	kind := []string{"pull", "bus", "sub", "pair", "xrep", "rep", "star"}[w.Choose(simrt.SShape, 7)]
+	tran := w.simFallback([]string{"sim", "simipc", "tcp", "ipc"}[w.Choose(simrt.SShape, 4)])
+	nbad := 10 + w.Choose(simrt.SShape, 30)
+	w.SetShape("kind", kind)
+	w.SetShape("tran", tran)
+	w.SetShape("bad", nbad)
+	nt := w.UseNet(NetCfg{})
+	s := w.Sock(kind)
+	defer s.Close()
+	if kind == "sub" {
+		mustSet(w, s, mangos.OptionSubscribe, "")
+	}
+	attached := 0
+	s.SetPipeEventHook(func(ev mangos.PipeEvent, p mangos.Pipe) {
+		if ev == mangos.PipeEventAttached {
+			attached++
+		}
+	})
+	laddr := w.Addr(tran)
+	if err := w.ListenOn(s, laddr); err != nil {
+		w.Failf("HARNESS/listen", "%v", err)
+		return
+	}
+	peerProto := protoOf(peerKind[kind])
+	for i := 0; i < nbad; i++ {
+		c, err := nt.Dial(NetKey(laddr))
+		if err != nil {
+			w.Failf("HARNESS/dial", "%v", err)
+			return
+		}
+		h := wcHeader(peerProto)
+		switch w.Choose(simrt.SProg, 3) {
+		case 0:
+			h[1] = 'X' // not an SP header
+		case 1:
+			h = wcHeader(peerProto ^ 0x3f0) // a protocol that does not pair up
+		case 2:
+			h[7] = 0xee // reserved byte
+		}
+		w.Fault("hs-corrupt")
+		c.Write(h)
+		if w.Choose(simrt.SProg, 3) == 0 {
+			w.Sleep(time.Millisecond)
+		}
+	}
+	good := w.Sock(peerKind[kind])
+	defer good.Close()
+	if peerKind[kind] == "sub" {
+		mustSet(w, good, mangos.OptionSubscribe, "")
+	}
+	t0 := w.Now()
+	dc := w.Do("good.Dial", func() (interface{}, error) {
+		return nil, good.DialOptions(laddr, w.EpOpts(laddr, false, map[string]interface{}{mangos.OptionDialAsynch: false}))
+	})
+	for i := 0; i < 1000 && attached == 0; i++ {
+		w.Sleep(time.Millisecond)
+		w.Settle()
+	}
+	if attached == 0 || !dc.Returned() || dc.Err != nil {
+		w.Failf("C16/bad-handshakes-delay-others:"+kind, "%s over %s: %d peers with malformed handshakes in a row, then a conforming peer: %v later it is not attached (Dial returned=%v err=%v, Attached events %d)", kind, tran, nbad, w.Now()-t0, dc.Returned(), dc.Err, attached)
+		return
+	}
+	w.Delivery++
+	w.Probe("attach-after-burst-of-bad-handshakes")
+}
+
+func init() {
+	register(&Scenario{Name: "burst-of-bad-handshakes", Prop: "C16", Horizon: time.Hour, Weight: 4, Run: c16BadBurst})
+}
